@@ -254,7 +254,7 @@ int main( int argc, char** argv )
     R(4) R(3,1) R(1,3) R(2,2) R(2,1,1) R(1,2,1) R(1,1,2) R(1,1,1,1)
     R(5) R(4,1) R(1,4) R(3,2) R(2,3) R(3,1,1) R(1,3,1) R(1,1,3) R(2,2,1) R(2,1,2) R(1,2,2)
     R(2,1,1,1) R(1,2,1,1) R(1,1,2,1) R(1,1,1,2) R(1,1,1,1,1)
-    if ( a.thorough() ) { R(6) R(8) R(9) R(4,5) R(5,4) R(1,8) R(3,3,3) }
+    if ( a.thorough() ) { R(6) R(1,5) R(5,1) R(2,4) R(3,3) R(2,2,2) R(7) }
     if ( !a.replay.empty() ) return rc;
     total.fixpoint = total.exhaustive;
     total.notes[ "bound" ] = "full reachable state space (fixpoint) of every listed Sizes tuple; drain + fairness run from every reachable state";
